@@ -213,6 +213,49 @@ Definition elab_kw (vc : vocab) (xkw : xkwargs) : kwargs :=
   map (fun p => (fst p, elab_total vc (fst p) (snd p))) xkw.
 
 (* ------------------------------------------------------------------------------------------------ *)
+(* The comparisons of the loop branches as READ FROM THE SOURCE (operators, margins, indices), interpreted
+   generically; Proofs/SelectXP.v shows that they are the masks of Model/Select.v (`gen_agrees`), so an edit
+   of an operator or a margin in dataset.py changes these definitions and breaks that theorem. *)
+
+Definition py_bool (op : string) (a b : bool) : bool :=
+  if String.eqb op "And" then a && b else if String.eqb op "Or" then a || b else false.
+Definition py_inZ (op : string) (x : Z) (l : list Z) : bool :=
+  if String.eqb op "In" then memZ x l else if String.eqb op "NotIn" then negb (memZ x l) else false.
+Definition py_in_input (op : string) (x : input) (l : list input) : bool :=
+  if String.eqb op "In" then mem_input x l else if String.eqb op "NotIn" then negb (mem_input x l) else false.
+
+(* v[index] +/- num/den * period *)
+Definition range_bound (row : Z * (string * ((Z * Z) * string))) (lo hi period : Z) : Z :=
+  let v := if fst row =? 0 then lo else hi in
+  let margin := (fst (fst (snd (snd row))) * period) / snd (fst (snd (snd row))) in
+  if String.eqb (fst (snd row)) "Add" then v + margin
+  else if String.eqb (fst (snd row)) "Sub" then v - margin else v.
+Definition gen_range_keep (tbl : list (Z * (string * ((Z * Z) * string)))) (lo hi period x : Z) : bool :=
+  forallb (fun row => py_cmp (snd (snd (snd row))) x (range_bound row lo hi period)) tbl.
+Definition gen_timerange_mask (o : obs) (lo hi : Z) : list bool :=
+  map (fun d => gen_range_keep sel_timerange lo hi (2 * o_half o) (d_ts d)) (o_dumps o).
+Definition gen_freqrange_mask (o : obs) (lo hi : Z) : list bool :=
+  map (fun f => gen_range_keep sel_freqrange lo hi (2 * o_halfw o) f) (o_freqs o).
+Definition gen_auto_mask (o : obs) : list bool :=
+  map (fun cp => py_cmp sel_auto_cmp (ant_of (fst cp)) (ant_of (snd cp))) (o_cps o).
+Definition gen_cross_mask (o : obs) : list bool :=
+  map (fun cp => py_cmp sel_cross_cmp (ant_of (fst cp)) (ant_of (snd cp))) (o_cps o).
+Definition gen_pair (ops : string * (string * string)) (names : list Z) (cp : cprod) : bool :=
+  py_bool (fst (snd ops)) (py_inZ (fst ops) (ant_of (fst cp)) names) (py_inZ (snd (snd ops)) (ant_of (snd cp)) names).
+Definition gen_ants_mask (o : obs) (l : list (bool * Z)) : list bool :=
+  if is_deselection l then map (gen_pair sel_ants_desel (map snd l)) (o_cps o)
+  else map (gen_pair sel_ants_sel (map snd (filter (fun a => negb (fst a)) l))) (o_cps o).
+Definition gen_inputs_mask (o : obs) (l : list input) : list bool :=
+  map (fun cp => py_bool (fst (snd sel_inputs_ops)) (py_in_input (fst sel_inputs_ops) (fst cp) l)
+                         (py_in_input (snd (snd sel_inputs_ops)) (snd cp) l)) (o_cps o).
+(* inpA[-1] == polAB[i] and inpB[-1] == polAB[j] for the two-letter item (p, q) *)
+Definition gen_pol_keep (cp : cprod) (p q : Z) : bool :=
+  let get (i : Z) := if i =? 0 then p else q in
+  py_bool (fst (snd sel_pol_match))
+          (py_cmp (fst (fst sel_pol_match)) (pol_of (fst cp)) (get (snd (fst sel_pol_match))))
+          (py_cmp (fst (snd (snd sel_pol_match))) (pol_of (snd cp)) (get (snd (snd (snd sel_pol_match))))).
+
+(* ------------------------------------------------------------------------------------------------ *)
 (* Public attributes derived from the masks (dataset.py, end of select)                              *)
 
 Fixpoint keep {A : Type} (m : list bool) (l : list A) : list A :=
